@@ -401,12 +401,15 @@ def _load_cached_doit(filename: Path, unevaluated_expr: sp.Expr) -> sp.Expr | No
     try:
         with open(filename, "rb") as f:
             cached_expr, unfolded_expr = pickle.load(f)  # noqa: S301
+        is_entry_for_expr = isinstance(unfolded_expr, sp.Basic) and bool(
+            cached_expr == unevaluated_expr
+        )
     except FileNotFoundError:
         return None
     except Exception:  # noqa: BLE001
         _LOGGER.warning(f"Could not read cached expression file {filename}")
         return None
-    if not isinstance(unfolded_expr, sp.Basic) or cached_expr != unevaluated_expr:
+    if not is_entry_for_expr:
         return None
     return unfolded_expr
 
